@@ -155,8 +155,10 @@ func checkDoc(spec docSpec, cfonts map[int]*canvas.Font, r *fw.R, fam string) {
 func familySingle(name string, strs []string, kindSet []int, subsets []bool) fw.Family {
 	nf, nk, ns := int64(len(fontMenu)), int64(len(kindSet)), int64(len(subsets))
 	decode := func(i int64) docSpec {
-		d := oracle.Digits(i, len(strs), int(nf), int(nk), int(ns)) // the string is the slowest digit
-		return docSpec{subset: subsets[d[3]], steps: []step{{font: d[1], kind: kindSet[d[2]], s: strs[d[0]]}}}
+		// the string is the slowest digit; the font (3, coprime to the 16 shards of the driver) the
+		// fastest, so that every worker gets every layout and both embedding modes
+		d := oracle.Digits(i, len(strs), int(nk), int(ns), int(nf))
+		return docSpec{subset: subsets[d[2]], steps: []step{{font: d[3], kind: kindSet[d[1]], s: strs[d[0]]}}}
 	}
 	return fw.Family{
 		Name: name, N: ns * nk * nf * int64(len(strs)),
@@ -174,12 +176,12 @@ var pairKinds = []int{kindLine, kindUpright}
 
 func familyPairs(name string, subsets []bool) fw.Family {
 	np, nk, nf := len(pairStrings), len(pairKinds), len(fontMenu)
-	radices := []int{np, np, nf, nf, nk, nk, 2, len(subsets)}
+	radices := []int{np, np, nk, nk, 2, len(subsets), nf, nf}
 	decode := func(i int64) docSpec {
 		d := oracle.Digits(i, radices...)
-		return docSpec{subset: subsets[d[7]], steps: []step{
-			{font: d[2], kind: pairKinds[d[4]], s: pairStrings[d[0]]},
-			{newPage: d[6] == 1, font: d[3], kind: pairKinds[d[5]], s: pairStrings[d[1]], shift: true},
+		return docSpec{subset: subsets[d[5]], steps: []step{
+			{font: d[6], kind: pairKinds[d[2]], s: pairStrings[d[0]]},
+			{newPage: d[4] == 1, font: d[7], kind: pairKinds[d[3]], s: pairStrings[d[1]], shift: true},
 		}}
 	}
 	return fw.Family{
@@ -194,11 +196,11 @@ func familyPairs(name string, subsets []bool) fw.Family {
 
 func familyReuse(name string) fw.Family {
 	np, nf := len(pairStrings), len(fontMenu)
-	radices := []int{np, np, nf, 2, 2}
+	radices := []int{np, np, 2, 2, nf}
 	decode := func(i int64) (docSpec, docSpec) {
 		d := oracle.Digits(i, radices...)
-		return docSpec{subset: d[3] == 0, steps: []step{{font: d[2], kind: kindLine, s: pairStrings[d[0]]}}},
-			docSpec{subset: d[4] == 0, steps: []step{{font: d[2], kind: kindLine, s: pairStrings[d[1]]}}}
+		return docSpec{subset: d[2] == 0, steps: []step{{font: d[4], kind: kindLine, s: pairStrings[d[0]]}}},
+			docSpec{subset: d[3] == 0, steps: []step{{font: d[4], kind: kindLine, s: pairStrings[d[1]]}}}
 	}
 	return fw.Family{
 		Name: name, N: oracle.Prod(radices...),
@@ -339,8 +341,8 @@ func relErr(a, b float64) float64 {
 func familyToPath(name string, strs []string) fw.Family {
 	nf, nv := len(fontMenu), len(faceVariants)
 	decode := func(i int64) (int, int, string) {
-		d := oracle.Digits(i, len(strs), nf, nv)
-		return d[1], d[2], strs[d[0]]
+		d := oracle.Digits(i, len(strs), nv, nf)
+		return d[2], d[1], strs[d[0]]
 	}
 	return fw.Family{
 		Name: name, N: int64(nf * nv * len(strs)),
@@ -454,8 +456,8 @@ func familyToPath(name string, strs []string) fw.Family {
 func familyRenderAsPath(name string, strs []string) fw.Family {
 	nf, nk := len(fontMenu), len(kinds)
 	decode := func(i int64) (int, int, string) {
-		d := oracle.Digits(i, len(strs), nf, nk)
-		return d[1], d[2], strs[d[0]]
+		d := oracle.Digits(i, len(strs), nk, nf)
+		return d[2], d[1], strs[d[0]]
 	}
 	return fw.Family{
 		Name: name, N: int64(nf * nk * len(strs)),
